@@ -992,15 +992,18 @@ class Toggler(Process):
         self.n_calls = 0
 
     def ports_schema(self):
+        rid = self.parameters['run_id']
         return {'flags': {n: {'_default': True, '_emit': True,
-                              '_updater': 'set'}
+                              '_updater': recording_updater(
+                                  rid, 'flag:' + n, 'set')}
                           for n in self.parameters['scripts']}}
 
     def next_update(self, timestep, states):
         i = self.n_calls
         self.n_calls += 1
         ctx = CTX.get(self.parameters['run_id'])
+        upd = {n: _pick(sc, i)
+               for n, sc in self.parameters['scripts'].items()}
         if ctx is not None:
-            ctx.rec('toggle', self.name, ctx.now(), i)
-        return {'flags': {n: _pick(sc, i)
-                          for n, sc in self.parameters['scripts'].items()}}
+            ctx.rec('toggle', self.name, ctx.now(), i, timestep, dict(upd))
+        return {'flags': upd}
